@@ -187,7 +187,16 @@ func (C10) Generate(rng *rand.Rand, tier string) []core.Case {
 		}
 		view := img
 		if rng.Intn(12) == 0 && len(img) > 8 {
-			view = img[:len(img)-1-rng.Intn(8)] // odd buffer lengths
+			// odd buffer lengths - but never shorter than the records written: a segment file has a fixed
+			// size, a buffer that ends inside a record is not an image any crash or corruption of bytes
+			// produces (the property quantifies over byte values, not over file truncation)
+			allEnd := 0
+			if nrec > 0 {
+				allEnd = im.offsets[nrec-1] + int(codecFor(ver).GetHeaderSize()) + len(im.payloads[nrec-1])
+			}
+			if cut := 1 + rng.Intn(8); len(img)-cut >= allEnd {
+				view = img[:len(img)-cut]
+			}
 		}
 		meta := fmt.Sprintf("orig=%s nrec=%d synced=%d touched=%d", core.Hex(orig), nrec, synced, touched)
 		ops = append(ops, fmt.Sprintf("cx.recover %s %s 0 %d %s", ver, core.Hex(view), uncommittedFrom, meta))
